@@ -14,7 +14,8 @@ from native.bounded._common import FLAGS, Checker
 BOUND = ("48 (x4 thorough) generated circuits (<= 3 variables ids 0..12, <= 3 units, arity <= 3, <= 2 outputs; every input kind incl. mixed) x "
          "all four (fold, optimize) settings; derived circuits: integrate and conjugate compiled in the same context; serialisation through torch.save / "
          "torch.load of the state_dict into a bytes buffer; 'exactly once' is read per owning tensor node (a derived circuit lists the operand's "
-         "tensors again under pointer paths: aliases required by C10)")
+         "tensors again under pointer paths: aliases required by C10); 2 frozen-tensor circuits evaluated before the load; 2 hand-built circuits x 4 flag settings whose "
+         "derived circuits (evidence, integrate o evidence, integrate, multiply) are compiled - and explicitly reset - AFTER the load")
 RULE = "one case = (circuit index, fold, optimize, base|derived operator, clause); distinct by that tuple"
 
 
@@ -70,6 +71,7 @@ def run(tier, seed):
                         ck.eq("derived_follow_base_reload", dict(base, circuit_kind=k), bridge.eval_compiled(b[k], x, "sum-product"), ya[k], rtol=1e-12, atol=0.0, nontrivial=bool(learn))
             ck.guarded("reload", base, go)
     _frozen_section(ck, seed)
+    _late_derived_section(ck, seed)
     return ck.res
 
 
@@ -111,3 +113,58 @@ def _frozen_section(ck, seed):
                     ck.eq("same_outputs_after_reload_of_evaluated_instance", dict(base, circuit_kind=k),
                           bridge.eval_compiled(b[k], x, "sum-product"), ya[k], rtol=1e-12, atol=0.0, nontrivial=True)
             ck.guarded("reload_frozen", base, go)
+
+
+def _late_derived_section(ck, seed):
+    """derived circuits (evidence, integrate o evidence, integrate, multiply) compiled in the fresh context AFTER the state dict was
+    loaded into the fresh base circuit: compiling (and so re-initialising) a derived circuit must leave the loaded tensors alone"""
+    from cirkit.symbolic.circuit import Circuit
+    from cirkit.symbolic.initializers import NormalInitializer
+    from cirkit.symbolic.layers import CategoricalLayer, EmbeddingLayer, HadamardLayer, SumLayer
+    from cirkit.symbolic.parameters import Parameter, TensorParameter
+    from cirkit.utils.scope import Scope
+
+    def normal(shape):
+        return Parameter.from_input(TensorParameter(*shape, initializer=NormalInitializer()))
+    for kind in ("categorical", "embedding"):
+        K, C = 2, 3
+        if kind == "categorical":
+            ins = [CategoricalLayer(Scope([v]), K, num_categories=C, logits_factory=normal) for v in (0, 4)]
+        else:
+            ins = [EmbeddingLayer(Scope([v]), K, num_states=C, weight_factory=normal) for v in (0, 4)]
+        h = HadamardLayer(K, arity=2)
+        s = SumLayer(K, 1, arity=1)
+        sc = Circuit(ins + [h, s], {h: ins, s: [h]}, [s])
+        derived = {"evidence": lambda: SF.evidence(sc, {0: 1, 4: 2}), "integrate_evidence": lambda: SF.integrate(SF.evidence(sc, {4: 0})),
+                   "integrate": lambda: SF.integrate(sc), "multiply": lambda: SF.multiply(sc, sc)}
+        for fold, opt in FLAGS:
+            base = {"section": "late_derived", "kind": kind, "fold": fold, "optimize": opt}
+
+            def go():
+                x = gen.gen_inputs(sc, 4, 6)
+
+                def ev(t, name):
+                    xx = None if name in ("evidence", "integrate") else x
+                    return bridge.eval_compiled(t, xx, "sum-product") if xx is not None else t().detach().numpy()
+                torch.manual_seed(91 + seed)
+                ctx_a = PipelineContext(backend="torch", semiring="sum-product", fold=fold, optimize=opt)
+                with ctx_a:
+                    a = {"base": ctx_a.compile(sc)}
+                    a.update({k: ctx_a.compile(f()) for k, f in derived.items()})
+                ya = {k: ev(t, k) for k, t in a.items()}
+                sd = _roundtrip(a["base"].state_dict())
+                torch.manual_seed(92 + seed)
+                ctx_b = PipelineContext(backend="torch", semiring="sum-product", fold=fold, optimize=opt)
+                with ctx_b:
+                    b = {"base": ctx_b.compile(sc)}
+                    b["base"].load_state_dict(sd, strict=True)
+                    for k, f in derived.items():
+                        b[k] = ctx_b.compile(f())                      # compiled after the load
+                        ck.eq("loaded_values_survive_compiling_a_derived_circuit", dict(base, circuit_kind="base", after=k), ev(b["base"], "base"), ya["base"],
+                              rtol=1e-12, atol=0.0, nontrivial=True)
+                        ck.eq("late_derived_circuit_computes_from_the_loaded_values", dict(base, circuit_kind=k), ev(b[k], k), ya[k], rtol=1e-12, atol=0.0, nontrivial=True)
+                    for k in derived:
+                        b[k].reset_parameters()                        # an explicit reset of a derived circuit owns no tensor of the base
+                        ck.eq("loaded_values_survive_resetting_a_derived_circuit", dict(base, circuit_kind="base", after=k), ev(b["base"], "base"), ya["base"],
+                              rtol=1e-12, atol=0.0, nontrivial=True)
+            ck.guarded("late_derived", base, go)
